@@ -218,7 +218,8 @@ fn ev_letter(e: &hk::Event) -> char {
     }
 }
 
-const STEP_LIMIT: Duration = Duration::from_secs(5);
+/// generous: the machine may be heavily loaded; a real hang ends the case
+const STEP_LIMIT: Duration = Duration::from_secs(20);
 
 /// what a thread hands back: results, spans are computed by the controller
 struct ThreadOut {
@@ -445,6 +446,12 @@ fn enumerate_real(case: &Case, limit: usize) -> (Vec<Exec>, bool) {
             break;
         }
         let ex = exec(case, &prefix, true);
+        if ex.end == "hung" {
+            // a step that never comes back: one report is enough for this case
+            out.push(ex);
+            cut = true;
+            break;
+        }
         for k in prefix.len()..ex.sched.len() {
             for &alt in &ex.enabled[k] {
                 if alt != ex.sched[k] {
@@ -1251,6 +1258,11 @@ fn main() {
                 std::io::stdout().flush().ok();
                 let c = case_for(seed, thorough, i);
                 run_case(&c, drv.as_mut(), &mut rep, limit);
+                let hung = rep.impl_violations.iter().filter(|v| v["key"] == "hung-step").count();
+                if hung >= 3 {
+                    rep.notes.push("batch cut short after 3 cases with a hung step".into());
+                    break;
+                }
             }
         }
         Some("replay") => {
